@@ -390,6 +390,13 @@ def _hugr_json(h):
     return json.loads(h._to_serial().model_dump_json())
 
 
+def _iterable(s, xs):
+    """Left/Right take `Iterable`s: hand them a list, a tuple or a one-shot iterator (chosen by the spec, so
+    that a replay rebuilds the same call)."""
+    style = len(repr(s)) % 3
+    return xs if style == 0 else tuple(xs) if style == 1 else iter(xs)
+
+
 def build_value(s):
     """Value/expression spec -> the real hugr-py object, built with the constructor the spec names."""
     from hugr import val
@@ -415,9 +422,9 @@ def build_value(s):
     if k == "@none":
         return val.None_(*[build_type(t) for t in s[1]])
     if k == "@left":
-        return val.Left([build_value(x) for x in s[1]], [build_type(t) for t in s[2]])
+        return val.Left(_iterable(s, [build_value(x) for x in s[1]]), _iterable(s, [build_type(t) for t in s[2]]))
     if k == "@right":
-        return val.Right([build_type(t) for t in s[1]], [build_value(x) for x in s[2]])
+        return val.Right(_iterable(s, [build_type(t) for t in s[1]]), _iterable(s, [build_value(x) for x in s[2]]))
     if k == "@unitsum":
         return val.UnitSum(s[1], s[2])
     if k == "@bool":
